@@ -124,6 +124,51 @@ pub fn cmd_gen_secrets(args: &[String]) -> i32 {
     0
 }
 
+/// driver gen-fuzz-corpus --seed S --count N --out DIR : seed corpus for the cargo-fuzz targets, built
+/// from the structured generators (so libFuzzer starts from the special values, not from nothing)
+pub fn cmd_gen_fuzz_corpus(args: &[String]) -> i32 {
+    let seed: u64 = arg_after(args, "--seed").and_then(|s| s.parse().ok()).unwrap_or(0);
+    let count: usize = arg_after(args, "--count").and_then(|s| s.parse().ok()).unwrap_or(300);
+    let out = arg_after(args, "--out").expect("--out");
+    let mut runner = TestRunner::new(Config { rng_seed: RngSeed::Fixed(seed ^ 0xf022), failure_persistence: None, ..Config::default() });
+    let write = |dir: &str, bytes: &[u8]| {
+        let d = format!("{}/{}", out, dir);
+        std::fs::create_dir_all(&d).unwrap();
+        std::fs::write(format!("{}/{:016x}", d, crate::util::fnv(bytes)), bytes).unwrap();
+    };
+    // fz_untrusted: [selector] ++ payload, selectors as in fuzz_targets/fz_untrusted.rs
+    let e32 = crate::gens::edwards_encoding().prop_map(|(_, e)| e.to_vec());
+    let r32 = props::c06::encoding().prop_map(|e| e.to_vec());
+    let u32_ = crate::gens::u256_interesting().prop_map(|e| e.to_vec());
+    let r64 = props::c06::map_input().prop_map(|e| e.to_vec());
+    let mu = crate::gens::montgomery_u().prop_map(|(_, e)| e.to_vec());
+    for _ in 0..count {
+        let mut gen = |s: &BoxedStrategy<Vec<u8>>| s.new_tree(&mut runner).unwrap().current();
+        let (e, r, u, w, m) = (gen(&e32.clone().boxed()), gen(&r32.clone().boxed()), gen(&u32_.clone().boxed()), gen(&r64.clone().boxed()), gen(&mu.clone().boxed()));
+        let cases: Vec<(u8, Vec<u8>)> = vec![
+            (0, e.clone()), (1, e.clone()), (2, r.clone()), (3, u.clone()), (4, w.clone()), (5, [vec![1u8], w.clone()].concat()),
+            (6, [vec![0u8], m.clone()].concat()), (7, [u.clone(), m.clone()].concat()), (10, e.clone()), (11, r.clone()), (12, u.clone()),
+            (13, [u.clone(), e.clone()].concat()), (14, e.clone()), (15, w.clone()),
+            (8, [vec![1u8, 1], format!("[{}]", e.iter().map(|x| x.to_string()).collect::<Vec<_>>().join(",")).into_bytes()].concat()),
+            (8, [vec![7u8, 0], 32u64.to_le_bytes().to_vec(), e.clone()].concat()),
+            (9, [vec![0u8, 1, 0], u.clone()].concat()),
+        ];
+        for (sel, payload) in cases {
+            write("fz_untrusted", &[vec![sel], payload].concat());
+        }
+        // fz_verify: pk(32) sig(64) flags(1) ctxlen(1) ctx msg
+        let rq = props::c09::strategy().new_tree(&mut runner).unwrap().current();
+        let mut b = rq.a[0].clone();
+        b.extend_from_slice(&rq.a[2]);
+        b.push(rq.a[4][0]);
+        b.push(rq.a[3].len().min(255) as u8);
+        b.extend_from_slice(&rq.a[3][..rq.a[3].len().min(255)]);
+        b.extend_from_slice(&rq.a[1][..rq.a[1].len().min(200)]);
+        write("fz_verify", &b);
+    }
+    0
+}
+
 /// driver exec-one --req JSON [--force K]  (used when replaying a cross-configuration difference)
 pub fn cmd_exec_one(args: &[String]) -> i32 {
     let v: Value = serde_json::from_str(&arg_after(args, "--req").expect("--req")).expect("json");
